@@ -231,7 +231,7 @@ class Ctx:
             out.pop()
         return p.returncode, out, p.stderr
 
-    def differential(self, name, lines, impl_out=None, nontrivial=None):
+    def differential(self, name, lines, impl_out=None, nontrivial=None, model_out=None):
         """Pipe the same request lines through the real code (wvh, unless impl_out is given) and the
         Lean model driver; returns the list of (request, impl, model) disagreements."""
         if impl_out is None:
@@ -241,9 +241,10 @@ class Ctx:
                 bad = self._bisect_crash(lines)
                 impl_out = impl_out + ["crash"] * (len(lines) - len(impl_out))
                 self.broken.append(f"correspondence {name}: implementation harness crashed on request: {bad}")
-        rc, model_out, err = self.run_lines(DRIVER, lines)
-        if len(model_out) != len(lines):
-            raise BuildError(f"model driver produced {len(model_out)} lines for {len(lines)} requests: {err[-500:]}")
+        if model_out is None:
+            rc, model_out, err = self.run_lines(DRIVER, lines)
+            if len(model_out) != len(lines):
+                raise BuildError(f"model driver produced {len(model_out)} lines for {len(lines)} requests: {err[-500:]}")
         dis = []
         c = self.cov["correspondences"].setdefault(name, {"requests": 0, "disagreements": 0})
         for i, (l, a, b) in enumerate(zip(lines, impl_out, model_out)):
@@ -286,6 +287,11 @@ class Ctx:
     # ---- verdict helpers
     def violation(self, key, what, replay, found_input=True):
         self.violations.append(Violation(key, what, replay, found_input))
+
+    def replay_dir(self):
+        d = os.path.join(VERIF, "replays", self.pid + "-files")
+        os.makedirs(d, exist_ok=True)
+        return d
 
     def cleanup(self):
         shutil.rmtree(self.scratch, ignore_errors=True)
@@ -387,12 +393,12 @@ def _run(mod, ctx):
     # 4. correspondence + oracle checks + search (property specific)
     mod.run(ctx)
     # 5. verdict
-    if ctx.broken and not ctx.violations:
-        # nothing concrete found by the property's search: still a violation
-        ctx.violation("broken:" + hashlib.sha256("|".join(ctx.broken).encode()).hexdigest()[:12],
-                      "proof obligation or correspondence no longer checks", {"broken": ctx.broken}, found_input=False)
     known = [k for k in load_known() if k.get("property") == pid and k.get("status", "open") == "open"]
     known_keys = {k["key"]: k for k in known}
+    if ctx.broken and not any(v.key not in known_keys for v in ctx.violations):
+        # nothing concrete (beyond already-recorded findings) found by the property's search: still a violation
+        ctx.violation("broken:" + hashlib.sha256("|".join(ctx.broken).encode()).hexdigest()[:12],
+                      "proof obligation or correspondence no longer checks", {"broken": ctx.broken}, found_input=False)
     reported = []
     known_hit = {}
     for v in ctx.violations:
